@@ -89,7 +89,7 @@ func allowFromEnv() map[string]bool {
 	return m
 }
 
-var cachePart = pbt.Part[cacheCase]{Name: "entity-cache-transparency", Quick: 8000, Thorough: 160000, Check: checkCache,
+var cachePart = pbt.Part[cacheCase]{Name: "entity-cache-transparency", Journal: true, Quick: 8000, Thorough: 160000, Check: checkCache,
 	Gen: func(t *rapid.T) cacheCase {
 		l := fedgen.Gen(t, fedgen.Options{Allow: allowFromEnv()})
 		super, err := sim.LoadSuper(l.Super)
